@@ -103,7 +103,7 @@ func RewriteClause(decls map[ast.PredicateSym]*ast.Decl, clause ast.Clause) ast.
 				premises = append(premises, delayNegAtom[i])
 				toRemove = append([]int{i}, toRemove...)
 			}
-			for i := range toRemove {
+			for _, i := range toRemove {
 				negAtomTail := []ast.Term{}
 				varsTail := []map[ast.Variable]bool{}
 				if i+1 < len(delayNegAtom) {
@@ -115,5 +115,9 @@ func RewriteClause(decls map[ast.PredicateSym]*ast.Decl, clause ast.Clause) ast.
 			}
 		}
 	}
+	// A negated atom with a variable that no later premise binds is kept at the
+	// end, so that the rule check reports the unbound variable instead of the
+	// atom being silently dropped.
+	premises = append(premises, delayNegAtom...)
 	return ast.Clause{Head: clause.Head, HeadTime: clause.HeadTime, Premises: premises, Transform: clause.Transform}
 }
